@@ -402,4 +402,4 @@ package core
 //@ func (*Location).GetProp
 //@   modifies allbut(F:sys.CachedLocation.|F:sys.CachedLocations.|MD:string:*sys.CachedLocation|MV:string:*sys.CachedLocation|ML:string:*sys.CachedLocation)
 //@ func (*Context).SetLoc
-//@   modifies ctx.location
+//@   modifies c.location
